@@ -990,6 +990,7 @@ var recRouter = ev.New("C09", "router-model",
 	"rapid: router.Config (JSON round-tripped) with 0-6 routes; each criterion kind absent/present/inverted; port criteria forcing single / <=16 ranges / bitmap; "+
 		"toDomains below/above 16; domain-set (text, gob) and prefix-set files written by the harness; 0-3 scripted resolvers (AAAA+A, A, AAAA, none, ErrLookup, other error) global or per route; "+
 		"on a third of the configurations a GeoLite2-Country database written by the harness's own MMDB writer (1-8 nested IPv4/IPv6 networks, 24/28/32-bit records, with/without the ::ffff:0:0/96 alias, records without a country) and fromGeoIPCountries / toGeoIPCountries / toMatchedDomainExpectedGeoIPCountries absent/present/inverted, a few configurations with a GeoIP criterion and no database (refused at load); "+
+		"invertToDomains also together with toMatchedDomainExpected… (two documented readings: every outcome must fit one of them and one reading must fit all requests of the configuration); the requirement stated through inline prefixes / named sets / countries, each alone or mixed; "+
 		"default named/reject/implicit-single; 12 requests per config over the config's vocabulary and boundaries (port 0/1/65535 and range edges, mapped sources, IP and domain targets, unknown users, tcp/udp, each server). "+
 		"Oracle: three-valued reference evaluator of the RouteConfig field comments. One evaluation = one (config, request) pair. "+
 		"Non-trivial: >=2 routes, deciding route not the first, and an inverted or OR-group criterion in a reached route; distinct key = config shape + request class + decider").
